@@ -234,8 +234,13 @@ fn level1(ctx: &mut Ctx, idx: usize, r: &mut Rng, clean: bool) {
     let key = format!("renderer:{}", idx);
     let family = if clean { "renderer" } else { "renderer-any" };
     if let Some(p) = run.panicked {
-        // the printer's own panics belong to C19; here they end the run before the final frame
-        ctx.case(family, &key, "viol", serde_json::json!({"class": c19::panic_class(&p), "what": format!("rendering panicked: {}", c19::clip(&p, 200)), "case": info}));
+        // the printer's own panics are C19's findings (judged there); here they end the run before the final frame
+        let class = c19::panic_class(&p);
+        if class != "C19/panic-other" {
+            ctx.case(family, "", "skip", serde_json::json!({"why": format!("printer panicked: {} (judged by C19)", class), "case": info}));
+        } else {
+            ctx.case(family, &key, "viol", serde_json::json!({"class": "C16/panic", "what": format!("rendering panicked: {}", c19::clip(&p, 200)), "case": info}));
+        }
         return;
     }
     // the frames the printer produces for the printed tables (same deterministic printer, same calls)
@@ -516,7 +521,12 @@ fn level2_case(ctx: &mut Ctx, idx: usize, r: &mut Rng, idle: bool, q: &Q, fixed:
         return;
     }
     if let Some(p) = &tty.panicked {
-        ctx.case(family, &key, "viol", serde_json::json!({"class": c19::panic_class(p), "what": format!("terminal run panicked: {}", c19::clip(p, 200)), "case": info}));
+        let class = c19::panic_class(p);
+        if class != "C19/panic-other" {
+            ctx.case(family, "", "skip", serde_json::json!({"why": format!("printer panicked: {} (judged by C19)", class), "case": info}));
+        } else {
+            ctx.case(family, &key, "viol", serde_json::json!({"class": "C16/panic", "what": format!("terminal run panicked: {}", c19::clip(p, 200)), "case": info}));
+        }
         return;
     }
     if !tty.compiled {
